@@ -352,15 +352,16 @@ fn step_and_check<const Q: u8>(dag: &mut G, st: &mut St, op: u8, a: usize, b: us
 
 /// Explore every sequence of `depth` operations from the current (concrete-shaped) state. `G1` restricts the FIRST
 /// operation to a group (used to partition the tree over several harnesses); deeper levels use all operations.
-fn explore<const Q: u8>(dag: &mut G, st: &mut St, depth: u8, g1: u8) {
+fn explore<const Q: u8>(dag: &mut G, st: &mut St, depth: u8, g1: u8, lim: usize) {
   if depth == 0 { return; }
   split(N_OPS, |k| {
     let (op, a, b) = decode(k);
     if !in_group(op, g1) { return; }
-    if a >= st.rf.nh || b >= st.rf.nh { return; } // handle not allocated yet: nothing to do
+    if a >= st.rf.nh || b >= st.rf.nh || a >= lim || b >= lim { return; } // handle not allocated (or outside this harness's operand range)
+    if op == OP_ADD_NODE && lim < NH { return; }
     let payload = vk::u8();
     step_and_check::<Q>(dag, st, op, a, b, payload);
-    explore::<Q>(dag, st, depth - 1, 7);
+    explore::<Q>(dag, st, depth - 1, 7, lim);
   });
 }
 
@@ -401,10 +402,10 @@ fn setup(pre: u8) -> (G, St) {
   (dag, st)
 }
 
-fn run<const Q: u8>(pre: u8, depth: u8, g1: u8) {
+fn run<const Q: u8>(pre: u8, depth: u8, g1: u8, lim: usize) {
   let (mut dag, mut st) = setup(pre);
   if Q != 0 { check_queries(&dag, &st, Q); }
-  explore::<Q>(&mut dag, &mut st, depth, g1);
+  explore::<Q>(&mut dag, &mut st, depth, g1, lim);
   ::std::mem::forget(dag);
 }
 
@@ -428,333 +429,333 @@ fn run_query_pairs(pre: u8) {
 }
 
 //@h props=C10 tier=quick unwind=45 stubs=sort
-fn c10_step_pre0() { run::<0>(0, 1, 7); }
+fn c10_step_pre0() { run::<0>(0, 1, 7, NH); }
 //@h props=C10 tier=quick unwind=45 stubs=sort
-fn c10_step_pre1() { run::<0>(1, 1, 7); }
+fn c10_step_pre1() { run::<0>(1, 1, 7, NH); }
 //@h props=C10 tier=quick unwind=45 stubs=sort
-fn c10_step_pre2() { run::<0>(2, 1, 7); }
+fn c10_step_pre2() { run::<0>(2, 1, 7, NH); }
 //@h props=C10 tier=quick unwind=45 stubs=sort
-fn c10_step_pre3() { run::<0>(3, 1, 7); }
+fn c10_step_pre3() { run::<0>(3, 1, 7, NH); }
 //@h props=C10 tier=quick unwind=45 stubs=sort
-fn c10_step_pre4() { run::<0>(4, 1, 7); }
+fn c10_step_pre4() { run::<0>(4, 1, 7, NH); }
 //@h props=C10 tier=quick unwind=45 stubs=sort
-fn c10_step_pre5() { run::<0>(5, 1, 7); }
+fn c10_step_pre5() { run::<0>(5, 1, 7, NH); }
 //@h props=C10 tier=quick unwind=45 stubs=sort
-fn c10_step_pre6() { run::<0>(6, 1, 7); }
+fn c10_step_pre6() { run::<0>(6, 1, 7, NH); }
 //@h props=C10 tier=quick unwind=45 stubs=sort
-fn c10_step_pre7() { run::<0>(7, 1, 7); }
+fn c10_step_pre7() { run::<0>(7, 1, 7, NH); }
 //@h props=C10 tier=quick unwind=45 stubs=sort
-fn c10_step_pre8() { run::<0>(8, 1, 7); }
+fn c10_step_pre8() { run::<0>(8, 1, 7, NH); }
 //@h props=C10 tier=quick unwind=45 stubs=sort
-fn c10_step_pre9() { run::<0>(9, 1, 7); }
+fn c10_step_pre9() { run::<0>(9, 1, 7, NH); }
 //@h props=C10 tier=quick unwind=45 stubs=sort
-fn c10_step_pre10() { run::<0>(10, 1, 7); }
+fn c10_step_pre10() { run::<0>(10, 1, 7, NH); }
 //@h props=C10 tier=quick unwind=45 stubs=sort
-fn c10_step_pre11() { run::<0>(11, 1, 7); }
+fn c10_step_pre11() { run::<0>(11, 1, 7, NH); }
 //@h props=C10 tier=quick unwind=45 stubs=sort
-fn c10_step_pre12() { run::<0>(12, 1, 7); }
+fn c10_step_pre12() { run::<0>(12, 1, 7, NH); }
 //@h props=C10 tier=quick unwind=45 stubs=sort
-fn c10_step_pre13() { run::<0>(13, 1, 7); }
+fn c10_step_pre13() { run::<0>(13, 1, 7, NH); }
 //@h props=C10 tier=thorough unwind=45 stubs=sort timeout=2400
-fn c10_depth2_pre0_g1() { run::<0>(0, 2, 1); }
+fn c10_depth2_pre0_g1() { run::<0>(0, 2, 1, NH); }
 //@h props=C10 tier=thorough unwind=45 stubs=sort timeout=2400
-fn c10_depth2_pre0_g2() { run::<0>(0, 2, 2); }
+fn c10_depth2_pre0_g2() { run::<0>(0, 2, 2, NH); }
 //@h props=C10 tier=thorough unwind=45 stubs=sort timeout=2400
-fn c10_depth2_pre0_g4() { run::<0>(0, 2, 4); }
+fn c10_depth2_pre0_g4() { run::<0>(0, 2, 4, NH); }
 //@h props=C10 tier=thorough unwind=45 stubs=sort timeout=2400
-fn c10_depth2_pre1_g1() { run::<0>(1, 2, 1); }
+fn c10_depth2_pre1_g1() { run::<0>(1, 2, 1, NH); }
 //@h props=C10 tier=thorough unwind=45 stubs=sort timeout=2400
-fn c10_depth2_pre1_g2() { run::<0>(1, 2, 2); }
+fn c10_depth2_pre1_g2() { run::<0>(1, 2, 2, NH); }
 //@h props=C10 tier=thorough unwind=45 stubs=sort timeout=2400
-fn c10_depth2_pre1_g4() { run::<0>(1, 2, 4); }
+fn c10_depth2_pre1_g4() { run::<0>(1, 2, 4, NH); }
 //@h props=C10 tier=thorough unwind=45 stubs=sort timeout=2400
-fn c10_depth2_pre2_g1() { run::<0>(2, 2, 1); }
+fn c10_depth2_pre2_g1() { run::<0>(2, 2, 1, NH); }
 //@h props=C10 tier=thorough unwind=45 stubs=sort timeout=2400
-fn c10_depth2_pre2_g2() { run::<0>(2, 2, 2); }
+fn c10_depth2_pre2_g2() { run::<0>(2, 2, 2, NH); }
 //@h props=C10 tier=thorough unwind=45 stubs=sort timeout=2400
-fn c10_depth2_pre2_g4() { run::<0>(2, 2, 4); }
+fn c10_depth2_pre2_g4() { run::<0>(2, 2, 4, NH); }
 //@h props=C10 tier=thorough unwind=45 stubs=sort timeout=2400
-fn c10_depth2_pre5_g1() { run::<0>(5, 2, 1); }
+fn c10_depth2_pre5_g1() { run::<0>(5, 2, 1, NH); }
 //@h props=C10 tier=thorough unwind=45 stubs=sort timeout=2400
-fn c10_depth2_pre5_g2() { run::<0>(5, 2, 2); }
+fn c10_depth2_pre5_g2() { run::<0>(5, 2, 2, NH); }
 //@h props=C10 tier=thorough unwind=45 stubs=sort timeout=2400
-fn c10_depth2_pre5_g4() { run::<0>(5, 2, 4); }
+fn c10_depth2_pre5_g4() { run::<0>(5, 2, 4, NH); }
 //@h props=C10 tier=thorough unwind=45 stubs=sort timeout=2400
-fn c10_depth2_pre7_g1() { run::<0>(7, 2, 1); }
+fn c10_depth2_pre7_g1() { run::<0>(7, 2, 1, NH); }
 //@h props=C10 tier=thorough unwind=45 stubs=sort timeout=2400
-fn c10_depth2_pre7_g2() { run::<0>(7, 2, 2); }
+fn c10_depth2_pre7_g2() { run::<0>(7, 2, 2, NH); }
 //@h props=C10 tier=thorough unwind=45 stubs=sort timeout=2400
-fn c10_depth2_pre7_g4() { run::<0>(7, 2, 4); }
+fn c10_depth2_pre7_g4() { run::<0>(7, 2, 4, NH); }
 //@h props=C10 tier=thorough unwind=45 stubs=sort timeout=2400
-fn c10_depth2_pre9_g1() { run::<0>(9, 2, 1); }
+fn c10_depth2_pre9_g1() { run::<0>(9, 2, 1, NH); }
 //@h props=C10 tier=thorough unwind=45 stubs=sort timeout=2400
-fn c10_depth2_pre9_g2() { run::<0>(9, 2, 2); }
+fn c10_depth2_pre9_g2() { run::<0>(9, 2, 2, NH); }
 //@h props=C10 tier=thorough unwind=45 stubs=sort timeout=2400
-fn c10_depth2_pre9_g4() { run::<0>(9, 2, 4); }
+fn c10_depth2_pre9_g4() { run::<0>(9, 2, 4, NH); }
 //@h props=C10 tier=thorough unwind=45 stubs=sort timeout=2400
-fn c10_depth2_pre10_g1() { run::<0>(10, 2, 1); }
+fn c10_depth2_pre10_g1() { run::<0>(10, 2, 1, NH); }
 //@h props=C10 tier=thorough unwind=45 stubs=sort timeout=2400
-fn c10_depth2_pre10_g2() { run::<0>(10, 2, 2); }
+fn c10_depth2_pre10_g2() { run::<0>(10, 2, 2, NH); }
 //@h props=C10 tier=thorough unwind=45 stubs=sort timeout=2400
-fn c10_depth2_pre10_g4() { run::<0>(10, 2, 4); }
+fn c10_depth2_pre10_g4() { run::<0>(10, 2, 4, NH); }
 //@h props=C10 tier=thorough unwind=45 stubs=sort timeout=2400
-fn c10_depth2_pre11_g1() { run::<0>(11, 2, 1); }
+fn c10_depth2_pre11_g1() { run::<0>(11, 2, 1, NH); }
 //@h props=C10 tier=thorough unwind=45 stubs=sort timeout=2400
-fn c10_depth2_pre11_g2() { run::<0>(11, 2, 2); }
+fn c10_depth2_pre11_g2() { run::<0>(11, 2, 2, NH); }
 //@h props=C10 tier=thorough unwind=45 stubs=sort timeout=2400
-fn c10_depth2_pre11_g4() { run::<0>(11, 2, 4); }
+fn c10_depth2_pre11_g4() { run::<0>(11, 2, 4, NH); }
 //@h props=C11 tier=thorough unwind=45 stubs=sort timeout=1800
-fn c11_step_pre0_g1_adj() { run::<3>(0, 1, 1); }
+fn c11_step3_pre0_g1_adj() { run::<3>(0, 1, 1, 3); }
 //@h props=C11 tier=thorough unwind=45 stubs=sort timeout=1800
-fn c11_step_pre0_g1_pair() { run::<4>(0, 1, 1); }
+fn c11_step3_pre0_g1_pair() { run::<4>(0, 1, 1, 3); }
 //@h props=C11 tier=thorough unwind=45 stubs=sort timeout=1800
-fn c11_step_pre0_g1_desc() { run::<24>(0, 1, 1); }
+fn c11_step3_pre0_g1_desc() { run::<24>(0, 1, 1, 3); }
 //@h props=C11 tier=thorough unwind=45 stubs=sort timeout=1800
-fn c11_step_pre0_g2_adj() { run::<3>(0, 1, 2); }
+fn c11_step3_pre0_g2_adj() { run::<3>(0, 1, 2, 3); }
 //@h props=C11 tier=thorough unwind=45 stubs=sort timeout=1800
-fn c11_step_pre0_g2_pair() { run::<4>(0, 1, 2); }
+fn c11_step3_pre0_g2_pair() { run::<4>(0, 1, 2, 3); }
 //@h props=C11 tier=thorough unwind=45 stubs=sort timeout=1800
-fn c11_step_pre0_g2_desc() { run::<24>(0, 1, 2); }
+fn c11_step3_pre0_g2_desc() { run::<24>(0, 1, 2, 3); }
 //@h props=C11 tier=thorough unwind=45 stubs=sort timeout=1800
-fn c11_step_pre0_g4_adj() { run::<3>(0, 1, 4); }
+fn c11_step3_pre0_g4_adj() { run::<3>(0, 1, 4, 3); }
 //@h props=C11 tier=thorough unwind=45 stubs=sort timeout=1800
-fn c11_step_pre0_g4_pair() { run::<4>(0, 1, 4); }
+fn c11_step3_pre0_g4_pair() { run::<4>(0, 1, 4, 3); }
 //@h props=C11 tier=thorough unwind=45 stubs=sort timeout=1800
-fn c11_step_pre0_g4_desc() { run::<24>(0, 1, 4); }
+fn c11_step3_pre0_g4_desc() { run::<24>(0, 1, 4, 3); }
 //@h props=C11 tier=quick unwind=45 stubs=sort timeout=1800
-fn c11_step_pre1_g1_adj() { run::<3>(1, 1, 1); }
+fn c11_step3_pre1_g1_adj() { run::<3>(1, 1, 1, 3); }
 //@h props=C11 tier=quick unwind=45 stubs=sort timeout=1800
-fn c11_step_pre1_g1_pair() { run::<4>(1, 1, 1); }
+fn c11_step3_pre1_g1_pair() { run::<4>(1, 1, 1, 3); }
 //@h props=C11 tier=quick unwind=45 stubs=sort timeout=1800
-fn c11_step_pre1_g1_desc() { run::<24>(1, 1, 1); }
+fn c11_step3_pre1_g1_desc() { run::<24>(1, 1, 1, 3); }
 //@h props=C11 tier=quick unwind=45 stubs=sort timeout=1800
-fn c11_step_pre1_g2_adj() { run::<3>(1, 1, 2); }
-//@h props=C11 tier=thorough unwind=45 stubs=sort timeout=1800
-fn c11_step_pre1_g2_pair() { run::<4>(1, 1, 2); }
-//@h props=C11 tier=thorough unwind=45 stubs=sort timeout=1800
-fn c11_step_pre1_g2_desc() { run::<24>(1, 1, 2); }
-//@h props=C11 tier=thorough unwind=45 stubs=sort timeout=1800
-fn c11_step_pre1_g4_adj() { run::<3>(1, 1, 4); }
+fn c11_step3_pre1_g2_adj() { run::<3>(1, 1, 2, 3); }
 //@h props=C11 tier=quick unwind=45 stubs=sort timeout=1800
-fn c11_step_pre1_g4_pair() { run::<4>(1, 1, 4); }
+fn c11_step3_pre1_g2_pair() { run::<4>(1, 1, 2, 3); }
 //@h props=C11 tier=quick unwind=45 stubs=sort timeout=1800
-fn c11_step_pre1_g4_desc() { run::<24>(1, 1, 4); }
+fn c11_step3_pre1_g2_desc() { run::<24>(1, 1, 2, 3); }
 //@h props=C11 tier=quick unwind=45 stubs=sort timeout=1800
-fn c11_step_pre2_g1_adj() { run::<3>(2, 1, 1); }
+fn c11_step3_pre1_g4_adj() { run::<3>(1, 1, 4, 3); }
 //@h props=C11 tier=quick unwind=45 stubs=sort timeout=1800
-fn c11_step_pre2_g1_pair() { run::<4>(2, 1, 1); }
+fn c11_step3_pre1_g4_pair() { run::<4>(1, 1, 4, 3); }
 //@h props=C11 tier=quick unwind=45 stubs=sort timeout=1800
-fn c11_step_pre2_g1_desc() { run::<24>(2, 1, 1); }
+fn c11_step3_pre1_g4_desc() { run::<24>(1, 1, 4, 3); }
+//@h props=C11 tier=thorough unwind=45 stubs=sort timeout=1800
+fn c11_step3_pre2_g1_adj() { run::<3>(2, 1, 1, 3); }
+//@h props=C11 tier=thorough unwind=45 stubs=sort timeout=1800
+fn c11_step3_pre2_g1_pair() { run::<4>(2, 1, 1, 3); }
+//@h props=C11 tier=thorough unwind=45 stubs=sort timeout=1800
+fn c11_step3_pre2_g1_desc() { run::<24>(2, 1, 1, 3); }
+//@h props=C11 tier=thorough unwind=45 stubs=sort timeout=1800
+fn c11_step3_pre2_g2_adj() { run::<3>(2, 1, 2, 3); }
+//@h props=C11 tier=thorough unwind=45 stubs=sort timeout=1800
+fn c11_step3_pre2_g2_pair() { run::<4>(2, 1, 2, 3); }
+//@h props=C11 tier=thorough unwind=45 stubs=sort timeout=1800
+fn c11_step3_pre2_g2_desc() { run::<24>(2, 1, 2, 3); }
+//@h props=C11 tier=thorough unwind=45 stubs=sort timeout=1800
+fn c11_step3_pre2_g4_adj() { run::<3>(2, 1, 4, 3); }
+//@h props=C11 tier=thorough unwind=45 stubs=sort timeout=1800
+fn c11_step3_pre2_g4_pair() { run::<4>(2, 1, 4, 3); }
+//@h props=C11 tier=thorough unwind=45 stubs=sort timeout=1800
+fn c11_step3_pre2_g4_desc() { run::<24>(2, 1, 4, 3); }
 //@h props=C11 tier=quick unwind=45 stubs=sort timeout=1800
-fn c11_step_pre2_g2_adj() { run::<3>(2, 1, 2); }
-//@h props=C11 tier=thorough unwind=45 stubs=sort timeout=1800
-fn c11_step_pre2_g2_pair() { run::<4>(2, 1, 2); }
-//@h props=C11 tier=thorough unwind=45 stubs=sort timeout=1800
-fn c11_step_pre2_g2_desc() { run::<24>(2, 1, 2); }
-//@h props=C11 tier=thorough unwind=45 stubs=sort timeout=1800
-fn c11_step_pre2_g4_adj() { run::<3>(2, 1, 4); }
+fn c11_step3_pre3_g1_adj() { run::<3>(3, 1, 1, 3); }
 //@h props=C11 tier=quick unwind=45 stubs=sort timeout=1800
-fn c11_step_pre2_g4_pair() { run::<4>(2, 1, 4); }
+fn c11_step3_pre3_g1_pair() { run::<4>(3, 1, 1, 3); }
 //@h props=C11 tier=quick unwind=45 stubs=sort timeout=1800
-fn c11_step_pre2_g4_desc() { run::<24>(2, 1, 4); }
-//@h props=C11 tier=thorough unwind=45 stubs=sort timeout=1800
-fn c11_step_pre3_g1_adj() { run::<3>(3, 1, 1); }
-//@h props=C11 tier=thorough unwind=45 stubs=sort timeout=1800
-fn c11_step_pre3_g1_pair() { run::<4>(3, 1, 1); }
-//@h props=C11 tier=thorough unwind=45 stubs=sort timeout=1800
-fn c11_step_pre3_g1_desc() { run::<24>(3, 1, 1); }
-//@h props=C11 tier=thorough unwind=45 stubs=sort timeout=1800
-fn c11_step_pre3_g2_adj() { run::<3>(3, 1, 2); }
-//@h props=C11 tier=thorough unwind=45 stubs=sort timeout=1800
-fn c11_step_pre3_g2_pair() { run::<4>(3, 1, 2); }
-//@h props=C11 tier=thorough unwind=45 stubs=sort timeout=1800
-fn c11_step_pre3_g2_desc() { run::<24>(3, 1, 2); }
-//@h props=C11 tier=thorough unwind=45 stubs=sort timeout=1800
-fn c11_step_pre3_g4_adj() { run::<3>(3, 1, 4); }
-//@h props=C11 tier=thorough unwind=45 stubs=sort timeout=1800
-fn c11_step_pre3_g4_pair() { run::<4>(3, 1, 4); }
-//@h props=C11 tier=thorough unwind=45 stubs=sort timeout=1800
-fn c11_step_pre3_g4_desc() { run::<24>(3, 1, 4); }
-//@h props=C11 tier=thorough unwind=45 stubs=sort timeout=1800
-fn c11_step_pre4_g1_adj() { run::<3>(4, 1, 1); }
-//@h props=C11 tier=thorough unwind=45 stubs=sort timeout=1800
-fn c11_step_pre4_g1_pair() { run::<4>(4, 1, 1); }
-//@h props=C11 tier=thorough unwind=45 stubs=sort timeout=1800
-fn c11_step_pre4_g1_desc() { run::<24>(4, 1, 1); }
-//@h props=C11 tier=thorough unwind=45 stubs=sort timeout=1800
-fn c11_step_pre4_g2_adj() { run::<3>(4, 1, 2); }
-//@h props=C11 tier=thorough unwind=45 stubs=sort timeout=1800
-fn c11_step_pre4_g2_pair() { run::<4>(4, 1, 2); }
-//@h props=C11 tier=thorough unwind=45 stubs=sort timeout=1800
-fn c11_step_pre4_g2_desc() { run::<24>(4, 1, 2); }
-//@h props=C11 tier=thorough unwind=45 stubs=sort timeout=1800
-fn c11_step_pre4_g4_adj() { run::<3>(4, 1, 4); }
-//@h props=C11 tier=thorough unwind=45 stubs=sort timeout=1800
-fn c11_step_pre4_g4_pair() { run::<4>(4, 1, 4); }
-//@h props=C11 tier=thorough unwind=45 stubs=sort timeout=1800
-fn c11_step_pre4_g4_desc() { run::<24>(4, 1, 4); }
-//@h props=C11 tier=thorough unwind=45 stubs=sort timeout=1800
-fn c11_step_pre5_g1_adj() { run::<3>(5, 1, 1); }
-//@h props=C11 tier=thorough unwind=45 stubs=sort timeout=1800
-fn c11_step_pre5_g1_pair() { run::<4>(5, 1, 1); }
-//@h props=C11 tier=thorough unwind=45 stubs=sort timeout=1800
-fn c11_step_pre5_g1_desc() { run::<24>(5, 1, 1); }
-//@h props=C11 tier=thorough unwind=45 stubs=sort timeout=1800
-fn c11_step_pre5_g2_adj() { run::<3>(5, 1, 2); }
-//@h props=C11 tier=thorough unwind=45 stubs=sort timeout=1800
-fn c11_step_pre5_g2_pair() { run::<4>(5, 1, 2); }
-//@h props=C11 tier=thorough unwind=45 stubs=sort timeout=1800
-fn c11_step_pre5_g2_desc() { run::<24>(5, 1, 2); }
-//@h props=C11 tier=thorough unwind=45 stubs=sort timeout=1800
-fn c11_step_pre5_g4_adj() { run::<3>(5, 1, 4); }
-//@h props=C11 tier=thorough unwind=45 stubs=sort timeout=1800
-fn c11_step_pre5_g4_pair() { run::<4>(5, 1, 4); }
-//@h props=C11 tier=thorough unwind=45 stubs=sort timeout=1800
-fn c11_step_pre5_g4_desc() { run::<24>(5, 1, 4); }
-//@h props=C11 tier=thorough unwind=45 stubs=sort timeout=1800
-fn c11_step_pre6_g1_adj() { run::<3>(6, 1, 1); }
-//@h props=C11 tier=thorough unwind=45 stubs=sort timeout=1800
-fn c11_step_pre6_g1_pair() { run::<4>(6, 1, 1); }
-//@h props=C11 tier=thorough unwind=45 stubs=sort timeout=1800
-fn c11_step_pre6_g1_desc() { run::<24>(6, 1, 1); }
-//@h props=C11 tier=thorough unwind=45 stubs=sort timeout=1800
-fn c11_step_pre6_g2_adj() { run::<3>(6, 1, 2); }
-//@h props=C11 tier=thorough unwind=45 stubs=sort timeout=1800
-fn c11_step_pre6_g2_pair() { run::<4>(6, 1, 2); }
-//@h props=C11 tier=thorough unwind=45 stubs=sort timeout=1800
-fn c11_step_pre6_g2_desc() { run::<24>(6, 1, 2); }
-//@h props=C11 tier=thorough unwind=45 stubs=sort timeout=1800
-fn c11_step_pre6_g4_adj() { run::<3>(6, 1, 4); }
-//@h props=C11 tier=thorough unwind=45 stubs=sort timeout=1800
-fn c11_step_pre6_g4_pair() { run::<4>(6, 1, 4); }
-//@h props=C11 tier=thorough unwind=45 stubs=sort timeout=1800
-fn c11_step_pre6_g4_desc() { run::<24>(6, 1, 4); }
+fn c11_step3_pre3_g1_desc() { run::<24>(3, 1, 1, 3); }
 //@h props=C11 tier=quick unwind=45 stubs=sort timeout=1800
-fn c11_step_pre7_g1_adj() { run::<3>(7, 1, 1); }
+fn c11_step3_pre3_g2_adj() { run::<3>(3, 1, 2, 3); }
 //@h props=C11 tier=quick unwind=45 stubs=sort timeout=1800
-fn c11_step_pre7_g1_pair() { run::<4>(7, 1, 1); }
+fn c11_step3_pre3_g2_pair() { run::<4>(3, 1, 2, 3); }
 //@h props=C11 tier=quick unwind=45 stubs=sort timeout=1800
-fn c11_step_pre7_g1_desc() { run::<24>(7, 1, 1); }
+fn c11_step3_pre3_g2_desc() { run::<24>(3, 1, 2, 3); }
 //@h props=C11 tier=quick unwind=45 stubs=sort timeout=1800
-fn c11_step_pre7_g2_adj() { run::<3>(7, 1, 2); }
-//@h props=C11 tier=thorough unwind=45 stubs=sort timeout=1800
-fn c11_step_pre7_g2_pair() { run::<4>(7, 1, 2); }
-//@h props=C11 tier=thorough unwind=45 stubs=sort timeout=1800
-fn c11_step_pre7_g2_desc() { run::<24>(7, 1, 2); }
-//@h props=C11 tier=thorough unwind=45 stubs=sort timeout=1800
-fn c11_step_pre7_g4_adj() { run::<3>(7, 1, 4); }
+fn c11_step3_pre3_g4_adj() { run::<3>(3, 1, 4, 3); }
 //@h props=C11 tier=quick unwind=45 stubs=sort timeout=1800
-fn c11_step_pre7_g4_pair() { run::<4>(7, 1, 4); }
+fn c11_step3_pre3_g4_pair() { run::<4>(3, 1, 4, 3); }
 //@h props=C11 tier=quick unwind=45 stubs=sort timeout=1800
-fn c11_step_pre7_g4_desc() { run::<24>(7, 1, 4); }
+fn c11_step3_pre3_g4_desc() { run::<24>(3, 1, 4, 3); }
+//@h props=C11 tier=thorough unwind=45 stubs=sort timeout=1800
+fn c11_step3_pre4_g1_adj() { run::<3>(4, 1, 1, 3); }
+//@h props=C11 tier=thorough unwind=45 stubs=sort timeout=1800
+fn c11_step3_pre4_g1_pair() { run::<4>(4, 1, 1, 3); }
+//@h props=C11 tier=thorough unwind=45 stubs=sort timeout=1800
+fn c11_step3_pre4_g1_desc() { run::<24>(4, 1, 1, 3); }
+//@h props=C11 tier=thorough unwind=45 stubs=sort timeout=1800
+fn c11_step3_pre4_g2_adj() { run::<3>(4, 1, 2, 3); }
+//@h props=C11 tier=thorough unwind=45 stubs=sort timeout=1800
+fn c11_step3_pre4_g2_pair() { run::<4>(4, 1, 2, 3); }
+//@h props=C11 tier=thorough unwind=45 stubs=sort timeout=1800
+fn c11_step3_pre4_g2_desc() { run::<24>(4, 1, 2, 3); }
+//@h props=C11 tier=thorough unwind=45 stubs=sort timeout=1800
+fn c11_step3_pre4_g4_adj() { run::<3>(4, 1, 4, 3); }
+//@h props=C11 tier=thorough unwind=45 stubs=sort timeout=1800
+fn c11_step3_pre4_g4_pair() { run::<4>(4, 1, 4, 3); }
+//@h props=C11 tier=thorough unwind=45 stubs=sort timeout=1800
+fn c11_step3_pre4_g4_desc() { run::<24>(4, 1, 4, 3); }
+//@h props=C11 tier=thorough unwind=45 stubs=sort timeout=1800
+fn c11_step3_pre5_g1_adj() { run::<3>(5, 1, 1, 3); }
+//@h props=C11 tier=thorough unwind=45 stubs=sort timeout=1800
+fn c11_step3_pre5_g1_pair() { run::<4>(5, 1, 1, 3); }
+//@h props=C11 tier=thorough unwind=45 stubs=sort timeout=1800
+fn c11_step3_pre5_g1_desc() { run::<24>(5, 1, 1, 3); }
+//@h props=C11 tier=thorough unwind=45 stubs=sort timeout=1800
+fn c11_step3_pre5_g2_adj() { run::<3>(5, 1, 2, 3); }
+//@h props=C11 tier=thorough unwind=45 stubs=sort timeout=1800
+fn c11_step3_pre5_g2_pair() { run::<4>(5, 1, 2, 3); }
+//@h props=C11 tier=thorough unwind=45 stubs=sort timeout=1800
+fn c11_step3_pre5_g2_desc() { run::<24>(5, 1, 2, 3); }
+//@h props=C11 tier=thorough unwind=45 stubs=sort timeout=1800
+fn c11_step3_pre5_g4_adj() { run::<3>(5, 1, 4, 3); }
+//@h props=C11 tier=thorough unwind=45 stubs=sort timeout=1800
+fn c11_step3_pre5_g4_pair() { run::<4>(5, 1, 4, 3); }
+//@h props=C11 tier=thorough unwind=45 stubs=sort timeout=1800
+fn c11_step3_pre5_g4_desc() { run::<24>(5, 1, 4, 3); }
 //@h props=C11 tier=quick unwind=45 stubs=sort timeout=1800
-fn c11_step_pre8_g1_adj() { run::<3>(8, 1, 1); }
+fn c11_step3_pre6_g1_adj() { run::<3>(6, 1, 1, 3); }
 //@h props=C11 tier=quick unwind=45 stubs=sort timeout=1800
-fn c11_step_pre8_g1_pair() { run::<4>(8, 1, 1); }
+fn c11_step3_pre6_g1_pair() { run::<4>(6, 1, 1, 3); }
 //@h props=C11 tier=quick unwind=45 stubs=sort timeout=1800
-fn c11_step_pre8_g1_desc() { run::<24>(8, 1, 1); }
+fn c11_step3_pre6_g1_desc() { run::<24>(6, 1, 1, 3); }
 //@h props=C11 tier=quick unwind=45 stubs=sort timeout=1800
-fn c11_step_pre8_g2_adj() { run::<3>(8, 1, 2); }
-//@h props=C11 tier=thorough unwind=45 stubs=sort timeout=1800
-fn c11_step_pre8_g2_pair() { run::<4>(8, 1, 2); }
-//@h props=C11 tier=thorough unwind=45 stubs=sort timeout=1800
-fn c11_step_pre8_g2_desc() { run::<24>(8, 1, 2); }
-//@h props=C11 tier=thorough unwind=45 stubs=sort timeout=1800
-fn c11_step_pre8_g4_adj() { run::<3>(8, 1, 4); }
+fn c11_step3_pre6_g2_adj() { run::<3>(6, 1, 2, 3); }
 //@h props=C11 tier=quick unwind=45 stubs=sort timeout=1800
-fn c11_step_pre8_g4_pair() { run::<4>(8, 1, 4); }
+fn c11_step3_pre6_g2_pair() { run::<4>(6, 1, 2, 3); }
 //@h props=C11 tier=quick unwind=45 stubs=sort timeout=1800
-fn c11_step_pre8_g4_desc() { run::<24>(8, 1, 4); }
-//@h props=C11 tier=thorough unwind=45 stubs=sort timeout=1800
-fn c11_step_pre9_g1_adj() { run::<3>(9, 1, 1); }
-//@h props=C11 tier=thorough unwind=45 stubs=sort timeout=1800
-fn c11_step_pre9_g1_pair() { run::<4>(9, 1, 1); }
-//@h props=C11 tier=thorough unwind=45 stubs=sort timeout=1800
-fn c11_step_pre9_g1_desc() { run::<24>(9, 1, 1); }
-//@h props=C11 tier=thorough unwind=45 stubs=sort timeout=1800
-fn c11_step_pre9_g2_adj() { run::<3>(9, 1, 2); }
-//@h props=C11 tier=thorough unwind=45 stubs=sort timeout=1800
-fn c11_step_pre9_g2_pair() { run::<4>(9, 1, 2); }
-//@h props=C11 tier=thorough unwind=45 stubs=sort timeout=1800
-fn c11_step_pre9_g2_desc() { run::<24>(9, 1, 2); }
-//@h props=C11 tier=thorough unwind=45 stubs=sort timeout=1800
-fn c11_step_pre9_g4_adj() { run::<3>(9, 1, 4); }
-//@h props=C11 tier=thorough unwind=45 stubs=sort timeout=1800
-fn c11_step_pre9_g4_pair() { run::<4>(9, 1, 4); }
-//@h props=C11 tier=thorough unwind=45 stubs=sort timeout=1800
-fn c11_step_pre9_g4_desc() { run::<24>(9, 1, 4); }
+fn c11_step3_pre6_g2_desc() { run::<24>(6, 1, 2, 3); }
 //@h props=C11 tier=quick unwind=45 stubs=sort timeout=1800
-fn c11_step_pre10_g1_adj() { run::<3>(10, 1, 1); }
+fn c11_step3_pre6_g4_adj() { run::<3>(6, 1, 4, 3); }
 //@h props=C11 tier=quick unwind=45 stubs=sort timeout=1800
-fn c11_step_pre10_g1_pair() { run::<4>(10, 1, 1); }
+fn c11_step3_pre6_g4_pair() { run::<4>(6, 1, 4, 3); }
 //@h props=C11 tier=quick unwind=45 stubs=sort timeout=1800
-fn c11_step_pre10_g1_desc() { run::<24>(10, 1, 1); }
+fn c11_step3_pre6_g4_desc() { run::<24>(6, 1, 4, 3); }
 //@h props=C11 tier=quick unwind=45 stubs=sort timeout=1800
-fn c11_step_pre10_g2_adj() { run::<3>(10, 1, 2); }
-//@h props=C11 tier=thorough unwind=45 stubs=sort timeout=1800
-fn c11_step_pre10_g2_pair() { run::<4>(10, 1, 2); }
-//@h props=C11 tier=thorough unwind=45 stubs=sort timeout=1800
-fn c11_step_pre10_g2_desc() { run::<24>(10, 1, 2); }
-//@h props=C11 tier=thorough unwind=45 stubs=sort timeout=1800
-fn c11_step_pre10_g4_adj() { run::<3>(10, 1, 4); }
+fn c11_step3_pre9_g1_adj() { run::<3>(9, 1, 1, 3); }
 //@h props=C11 tier=quick unwind=45 stubs=sort timeout=1800
-fn c11_step_pre10_g4_pair() { run::<4>(10, 1, 4); }
+fn c11_step3_pre9_g1_pair() { run::<4>(9, 1, 1, 3); }
 //@h props=C11 tier=quick unwind=45 stubs=sort timeout=1800
-fn c11_step_pre10_g4_desc() { run::<24>(10, 1, 4); }
-//@h props=C11 tier=thorough unwind=45 stubs=sort timeout=1800
-fn c11_step_pre11_g1_adj() { run::<3>(11, 1, 1); }
-//@h props=C11 tier=thorough unwind=45 stubs=sort timeout=1800
-fn c11_step_pre11_g1_pair() { run::<4>(11, 1, 1); }
-//@h props=C11 tier=thorough unwind=45 stubs=sort timeout=1800
-fn c11_step_pre11_g1_desc() { run::<24>(11, 1, 1); }
-//@h props=C11 tier=thorough unwind=45 stubs=sort timeout=1800
-fn c11_step_pre11_g2_adj() { run::<3>(11, 1, 2); }
-//@h props=C11 tier=thorough unwind=45 stubs=sort timeout=1800
-fn c11_step_pre11_g2_pair() { run::<4>(11, 1, 2); }
-//@h props=C11 tier=thorough unwind=45 stubs=sort timeout=1800
-fn c11_step_pre11_g2_desc() { run::<24>(11, 1, 2); }
-//@h props=C11 tier=thorough unwind=45 stubs=sort timeout=1800
-fn c11_step_pre11_g4_adj() { run::<3>(11, 1, 4); }
-//@h props=C11 tier=thorough unwind=45 stubs=sort timeout=1800
-fn c11_step_pre11_g4_pair() { run::<4>(11, 1, 4); }
-//@h props=C11 tier=thorough unwind=45 stubs=sort timeout=1800
-fn c11_step_pre11_g4_desc() { run::<24>(11, 1, 4); }
+fn c11_step3_pre9_g1_desc() { run::<24>(9, 1, 1, 3); }
 //@h props=C11 tier=quick unwind=45 stubs=sort timeout=1800
-fn c11_step_pre12_g1_adj() { run::<3>(12, 1, 1); }
+fn c11_step3_pre9_g2_adj() { run::<3>(9, 1, 2, 3); }
 //@h props=C11 tier=quick unwind=45 stubs=sort timeout=1800
-fn c11_step_pre12_g1_pair() { run::<4>(12, 1, 1); }
+fn c11_step3_pre9_g2_pair() { run::<4>(9, 1, 2, 3); }
 //@h props=C11 tier=quick unwind=45 stubs=sort timeout=1800
-fn c11_step_pre12_g1_desc() { run::<24>(12, 1, 1); }
+fn c11_step3_pre9_g2_desc() { run::<24>(9, 1, 2, 3); }
 //@h props=C11 tier=quick unwind=45 stubs=sort timeout=1800
-fn c11_step_pre12_g2_adj() { run::<3>(12, 1, 2); }
-//@h props=C11 tier=thorough unwind=45 stubs=sort timeout=1800
-fn c11_step_pre12_g2_pair() { run::<4>(12, 1, 2); }
-//@h props=C11 tier=thorough unwind=45 stubs=sort timeout=1800
-fn c11_step_pre12_g2_desc() { run::<24>(12, 1, 2); }
-//@h props=C11 tier=thorough unwind=45 stubs=sort timeout=1800
-fn c11_step_pre12_g4_adj() { run::<3>(12, 1, 4); }
+fn c11_step3_pre9_g4_adj() { run::<3>(9, 1, 4, 3); }
 //@h props=C11 tier=quick unwind=45 stubs=sort timeout=1800
-fn c11_step_pre12_g4_pair() { run::<4>(12, 1, 4); }
+fn c11_step3_pre9_g4_pair() { run::<4>(9, 1, 4, 3); }
 //@h props=C11 tier=quick unwind=45 stubs=sort timeout=1800
-fn c11_step_pre12_g4_desc() { run::<24>(12, 1, 4); }
-//@h props=C11 tier=thorough unwind=45 stubs=sort timeout=1800
-fn c11_step_pre13_g1_adj() { run::<3>(13, 1, 1); }
-//@h props=C11 tier=thorough unwind=45 stubs=sort timeout=1800
-fn c11_step_pre13_g1_pair() { run::<4>(13, 1, 1); }
-//@h props=C11 tier=thorough unwind=45 stubs=sort timeout=1800
-fn c11_step_pre13_g1_desc() { run::<24>(13, 1, 1); }
-//@h props=C11 tier=thorough unwind=45 stubs=sort timeout=1800
-fn c11_step_pre13_g2_adj() { run::<3>(13, 1, 2); }
-//@h props=C11 tier=thorough unwind=45 stubs=sort timeout=1800
-fn c11_step_pre13_g2_pair() { run::<4>(13, 1, 2); }
-//@h props=C11 tier=thorough unwind=45 stubs=sort timeout=1800
-fn c11_step_pre13_g2_desc() { run::<24>(13, 1, 2); }
-//@h props=C11 tier=thorough unwind=45 stubs=sort timeout=1800
-fn c11_step_pre13_g4_adj() { run::<3>(13, 1, 4); }
-//@h props=C11 tier=thorough unwind=45 stubs=sort timeout=1800
-fn c11_step_pre13_g4_pair() { run::<4>(13, 1, 4); }
-//@h props=C11 tier=thorough unwind=45 stubs=sort timeout=1800
-fn c11_step_pre13_g4_desc() { run::<24>(13, 1, 4); }
+fn c11_step3_pre9_g4_desc() { run::<24>(9, 1, 4, 3); }
+//@h props=C11 tier=thorough unwind=45 stubs=sort timeout=2400
+fn c11_step4_pre7_g1_adj() { run::<3>(7, 1, 1, NH); }
+//@h props=C11 tier=thorough unwind=45 stubs=sort timeout=2400
+fn c11_step4_pre7_g1_pair() { run::<4>(7, 1, 1, NH); }
+//@h props=C11 tier=thorough unwind=45 stubs=sort timeout=2400
+fn c11_step4_pre7_g1_desc() { run::<24>(7, 1, 1, NH); }
+//@h props=C11 tier=thorough unwind=45 stubs=sort timeout=2400
+fn c11_step4_pre7_g2_adj() { run::<3>(7, 1, 2, NH); }
+//@h props=C11 tier=thorough unwind=45 stubs=sort timeout=2400
+fn c11_step4_pre7_g2_pair() { run::<4>(7, 1, 2, NH); }
+//@h props=C11 tier=thorough unwind=45 stubs=sort timeout=2400
+fn c11_step4_pre7_g2_desc() { run::<24>(7, 1, 2, NH); }
+//@h props=C11 tier=thorough unwind=45 stubs=sort timeout=2400
+fn c11_step4_pre7_g4_adj() { run::<3>(7, 1, 4, NH); }
+//@h props=C11 tier=thorough unwind=45 stubs=sort timeout=2400
+fn c11_step4_pre7_g4_pair() { run::<4>(7, 1, 4, NH); }
+//@h props=C11 tier=thorough unwind=45 stubs=sort timeout=2400
+fn c11_step4_pre7_g4_desc() { run::<24>(7, 1, 4, NH); }
+//@h props=C11 tier=thorough unwind=45 stubs=sort timeout=2400
+fn c11_step4_pre8_g1_adj() { run::<3>(8, 1, 1, NH); }
+//@h props=C11 tier=thorough unwind=45 stubs=sort timeout=2400
+fn c11_step4_pre8_g1_pair() { run::<4>(8, 1, 1, NH); }
+//@h props=C11 tier=thorough unwind=45 stubs=sort timeout=2400
+fn c11_step4_pre8_g1_desc() { run::<24>(8, 1, 1, NH); }
+//@h props=C11 tier=thorough unwind=45 stubs=sort timeout=2400
+fn c11_step4_pre8_g2_adj() { run::<3>(8, 1, 2, NH); }
+//@h props=C11 tier=thorough unwind=45 stubs=sort timeout=2400
+fn c11_step4_pre8_g2_pair() { run::<4>(8, 1, 2, NH); }
+//@h props=C11 tier=thorough unwind=45 stubs=sort timeout=2400
+fn c11_step4_pre8_g2_desc() { run::<24>(8, 1, 2, NH); }
+//@h props=C11 tier=thorough unwind=45 stubs=sort timeout=2400
+fn c11_step4_pre8_g4_adj() { run::<3>(8, 1, 4, NH); }
+//@h props=C11 tier=thorough unwind=45 stubs=sort timeout=2400
+fn c11_step4_pre8_g4_pair() { run::<4>(8, 1, 4, NH); }
+//@h props=C11 tier=thorough unwind=45 stubs=sort timeout=2400
+fn c11_step4_pre8_g4_desc() { run::<24>(8, 1, 4, NH); }
+//@h props=C11 tier=thorough unwind=45 stubs=sort timeout=2400
+fn c11_step4_pre10_g1_adj() { run::<3>(10, 1, 1, NH); }
+//@h props=C11 tier=thorough unwind=45 stubs=sort timeout=2400
+fn c11_step4_pre10_g1_pair() { run::<4>(10, 1, 1, NH); }
+//@h props=C11 tier=thorough unwind=45 stubs=sort timeout=2400
+fn c11_step4_pre10_g1_desc() { run::<24>(10, 1, 1, NH); }
+//@h props=C11 tier=thorough unwind=45 stubs=sort timeout=2400
+fn c11_step4_pre10_g2_adj() { run::<3>(10, 1, 2, NH); }
+//@h props=C11 tier=thorough unwind=45 stubs=sort timeout=2400
+fn c11_step4_pre10_g2_pair() { run::<4>(10, 1, 2, NH); }
+//@h props=C11 tier=thorough unwind=45 stubs=sort timeout=2400
+fn c11_step4_pre10_g2_desc() { run::<24>(10, 1, 2, NH); }
+//@h props=C11 tier=thorough unwind=45 stubs=sort timeout=2400
+fn c11_step4_pre10_g4_adj() { run::<3>(10, 1, 4, NH); }
+//@h props=C11 tier=thorough unwind=45 stubs=sort timeout=2400
+fn c11_step4_pre10_g4_pair() { run::<4>(10, 1, 4, NH); }
+//@h props=C11 tier=thorough unwind=45 stubs=sort timeout=2400
+fn c11_step4_pre10_g4_desc() { run::<24>(10, 1, 4, NH); }
+//@h props=C11 tier=thorough unwind=45 stubs=sort timeout=2400
+fn c11_step4_pre11_g1_adj() { run::<3>(11, 1, 1, NH); }
+//@h props=C11 tier=thorough unwind=45 stubs=sort timeout=2400
+fn c11_step4_pre11_g1_pair() { run::<4>(11, 1, 1, NH); }
+//@h props=C11 tier=thorough unwind=45 stubs=sort timeout=2400
+fn c11_step4_pre11_g1_desc() { run::<24>(11, 1, 1, NH); }
+//@h props=C11 tier=thorough unwind=45 stubs=sort timeout=2400
+fn c11_step4_pre11_g2_adj() { run::<3>(11, 1, 2, NH); }
+//@h props=C11 tier=thorough unwind=45 stubs=sort timeout=2400
+fn c11_step4_pre11_g2_pair() { run::<4>(11, 1, 2, NH); }
+//@h props=C11 tier=thorough unwind=45 stubs=sort timeout=2400
+fn c11_step4_pre11_g2_desc() { run::<24>(11, 1, 2, NH); }
+//@h props=C11 tier=thorough unwind=45 stubs=sort timeout=2400
+fn c11_step4_pre11_g4_adj() { run::<3>(11, 1, 4, NH); }
+//@h props=C11 tier=thorough unwind=45 stubs=sort timeout=2400
+fn c11_step4_pre11_g4_pair() { run::<4>(11, 1, 4, NH); }
+//@h props=C11 tier=thorough unwind=45 stubs=sort timeout=2400
+fn c11_step4_pre11_g4_desc() { run::<24>(11, 1, 4, NH); }
+//@h props=C11 tier=thorough unwind=45 stubs=sort timeout=2400
+fn c11_step4_pre12_g1_adj() { run::<3>(12, 1, 1, NH); }
+//@h props=C11 tier=thorough unwind=45 stubs=sort timeout=2400
+fn c11_step4_pre12_g1_pair() { run::<4>(12, 1, 1, NH); }
+//@h props=C11 tier=thorough unwind=45 stubs=sort timeout=2400
+fn c11_step4_pre12_g1_desc() { run::<24>(12, 1, 1, NH); }
+//@h props=C11 tier=thorough unwind=45 stubs=sort timeout=2400
+fn c11_step4_pre12_g2_adj() { run::<3>(12, 1, 2, NH); }
+//@h props=C11 tier=thorough unwind=45 stubs=sort timeout=2400
+fn c11_step4_pre12_g2_pair() { run::<4>(12, 1, 2, NH); }
+//@h props=C11 tier=thorough unwind=45 stubs=sort timeout=2400
+fn c11_step4_pre12_g2_desc() { run::<24>(12, 1, 2, NH); }
+//@h props=C11 tier=thorough unwind=45 stubs=sort timeout=2400
+fn c11_step4_pre12_g4_adj() { run::<3>(12, 1, 4, NH); }
+//@h props=C11 tier=thorough unwind=45 stubs=sort timeout=2400
+fn c11_step4_pre12_g4_pair() { run::<4>(12, 1, 4, NH); }
+//@h props=C11 tier=thorough unwind=45 stubs=sort timeout=2400
+fn c11_step4_pre12_g4_desc() { run::<24>(12, 1, 4, NH); }
+//@h props=C11 tier=thorough unwind=45 stubs=sort timeout=2400
+fn c11_step4_pre13_g1_adj() { run::<3>(13, 1, 1, NH); }
+//@h props=C11 tier=thorough unwind=45 stubs=sort timeout=2400
+fn c11_step4_pre13_g1_pair() { run::<4>(13, 1, 1, NH); }
+//@h props=C11 tier=thorough unwind=45 stubs=sort timeout=2400
+fn c11_step4_pre13_g1_desc() { run::<24>(13, 1, 1, NH); }
+//@h props=C11 tier=thorough unwind=45 stubs=sort timeout=2400
+fn c11_step4_pre13_g2_adj() { run::<3>(13, 1, 2, NH); }
+//@h props=C11 tier=thorough unwind=45 stubs=sort timeout=2400
+fn c11_step4_pre13_g2_pair() { run::<4>(13, 1, 2, NH); }
+//@h props=C11 tier=thorough unwind=45 stubs=sort timeout=2400
+fn c11_step4_pre13_g2_desc() { run::<24>(13, 1, 2, NH); }
+//@h props=C11 tier=thorough unwind=45 stubs=sort timeout=2400
+fn c11_step4_pre13_g4_adj() { run::<3>(13, 1, 4, NH); }
+//@h props=C11 tier=thorough unwind=45 stubs=sort timeout=2400
+fn c11_step4_pre13_g4_pair() { run::<4>(13, 1, 4, NH); }
+//@h props=C11 tier=thorough unwind=45 stubs=sort timeout=2400
+fn c11_step4_pre13_g4_desc() { run::<24>(13, 1, 4, NH); }
 //@h props=C11 tier=thorough unwind=45 stubs=sort timeout=1800
 fn c11_query_pairs_pre1() { run_query_pairs(1); }
 //@h props=C11 tier=quick unwind=45 stubs=sort timeout=1800
